@@ -258,6 +258,13 @@ class Closure:
         self.env = env
 
 
+class NestedFunc:
+    """`def` inside a function: body + the live environment of the enclosing call"""
+
+    def __init__(self, node, env, frame):
+        self.node, self.env, self.frame = node, env, frame
+
+
 class NDArr:
     """small dense array of scalar values, concrete shape (nested lists)."""
 
@@ -409,6 +416,8 @@ class Engine:
         self.paths = 0
         self.solver_time = 0.0
         self.inlined_seen = set()
+        self.auto_inlined = set()
+        self.contracted = ()
         self.summaries_used = set()
         self.notes = []
         self.rechecked = {}
@@ -1151,7 +1160,11 @@ class Engine:
         raise EngineError('with statement outside the subset')
 
     def st_FunctionDef(self, st, env):
-        raise EngineError('nested function definition outside the subset')
+        # a local helper function: a closure over the enclosing variables (read-only; looked up when it is called)
+        for x in ast.walk(st):
+            if isinstance(x, (ast.Nonlocal, ast.Global, ast.Yield, ast.YieldFrom)):
+                raise EngineError('nested function with nonlocal/global/yield outside the subset')
+        env[st.name] = NestedFunc(st, env, self.frames[-1] if self.frames else None)
 
     def st_Delete(self, st, env):
         raise EngineError('del outside the subset')
@@ -1230,6 +1243,9 @@ class Engine:
         """symbolic iterable -> (SSeq, transform) where transform maps an element."""
         if isinstance(it, SSeq):
             return it
+        if isinstance(it, SArr) and it.rank == 1 and it.length is not None:
+            arr = it.copy()
+            return SSeq(it.length, lambda i, arr=arr: arr.read((i,)), 'array(%s)' % it.label)
         if isinstance(it, SList):
             if len(it.chunks) == 1 and it.chunks[0][0] == 'seq':
                 return it.chunks[0][1]
@@ -2618,6 +2634,23 @@ class Engine:
             env = dict(f.env)
             env.update(self.bind_args(f.node, args, kwargs))
             return self.eval(f.node.body, env)
+        if isinstance(f, NestedFunc):
+            env = dict(f.env)
+            env.update(self.bind_args(f.node, args, kwargs))
+            if len(self.frames) > 40:
+                raise EngineError('inlining depth')
+            outer = f.frame or (self.frames[-1] if self.frames else None)
+            frame = dict(outer) if outer else {}
+            frame.update({'env': env, 'node': f.node, 'nested': True})
+            self.frames.append(frame)
+            try:
+                try:
+                    self.exec_block(f.node.body, env)
+                    return None
+                except _Return as r:
+                    return r.value
+            finally:
+                self.frames.pop()
         raise EngineError('call of %r' % (f,))
 
     def call_user(self, fref, args, kwargs):
@@ -2630,7 +2663,27 @@ class Engine:
             if len(self.frames) > 40:
                 raise EngineError('inlining depth')
             return self.exec_function(fref, args, kwargs)
+        if self.auto_inline_ok(fref):
+            # a loop-free helper that no unit claims (typically the product of an "extract method" refactoring):
+            # executing its real body in place is sound; it is reported in the evidence
+            self.auto_inlined.add(q)
+            if len(self.frames) > 12:
+                raise EngineError('inlining depth (automatic)')
+            return self.exec_function(fref, args, kwargs)
         raise EngineError('call to %s: no contract (summary) and not listed for inlining' % q)
+
+    def auto_inline_ok(self, fref):
+        q = fref.qual
+        if q in getattr(self, 'contracted', ()) or q.endswith('.__init__'):
+            return False
+        node = self.fn_override.get(q) or fref.node
+        if node is None:
+            return False
+        for x in ast.walk(node):
+            if isinstance(x, (ast.For, ast.While, ast.ListComp, ast.GeneratorExp, ast.SetComp, ast.DictComp,
+                              ast.Yield, ast.YieldFrom, ast.Lambda)):
+                return False
+        return True
 
     def construct(self, cref, args, kwargs):
         q = cref.name + '.__init__'
